@@ -11,6 +11,10 @@ quantem returns (never by re-running quantem code):
   obj_multi / tomo_multi   2-3 models of one family alive together, constructed / configured / read in
          a drawn interleaving; every model is judged against its OWN requested settings (shared or
          aliased constraint state only shows when instances are interleaved)
+  recon  end to end: a tiny Ptychography object and a drawn history of reconstruct() calls (reset flag,
+         object and probe constraints per call, real optimiser steps); after every call the object handed
+         to the forward model (obj_model.obj and the forward patches) and the probe are judged against
+         what that call requested
 """
 
 from __future__ import annotations
